@@ -105,7 +105,7 @@ Section TM.
     match fuel with
     | O => PL
     | S k => let PL' := tm_round PL in
-             if (length PL' =? length PL)%nat then PL else tm_iter k PL'
+             if ((length PL' =? length PL) || (2000 <? length PL'))%nat then PL' else tm_iter k PL'
     end.
 End TM.
 
@@ -136,7 +136,7 @@ Definition st_dist (p : list instr) (o : N * N) (g : gst) (l : tstate) : nat :=
 
 (* bounds: B own steps of the (potential) owner end the run; K own steps after that return *)
 Definition ST_B : nat := 40.
-Definition ST_K : nat := 16.
+Definition ST_K : nat := 24.
 
 Definition st_PL (p : list instr) (is : N) (entry : nat) (o : N * N) : list (gst * tstate) :=
   tm_iter gst tstate gst_eqb tstate_eqb (tstep p o) own st_hot 400 [(g0 is, t0 entry)].
